@@ -8,10 +8,12 @@ import (
 	"fmt"
 	"io"
 	"os"
+	"runtime"
 	"runtime/debug"
 	"sort"
 	"strings"
 	"sync"
+	"time"
 
 	zed "github.com/brimdata/super"
 	"github.com/brimdata/super/compiler/optimizer/demand"
@@ -19,6 +21,7 @@ import (
 	"github.com/brimdata/super/runtime/vam"
 	"github.com/brimdata/super/runtime/vcache"
 	"github.com/brimdata/super/vng"
+	"github.com/brimdata/super/zbuf"
 	"github.com/brimdata/super/zcode"
 	"github.com/brimdata/super/zio"
 	"github.com/brimdata/super/zio/vngio"
@@ -33,6 +36,7 @@ import (
 
 type request struct {
 	ID       int          `json:"id"`
+	Label    string       `json:"label,omitempty"` // what the request is (for attribution of a late death)
 	Universe int          `json:"universe"`
 	Ty       []Term       `json:"ty"`    // the family's type table
 	TIdx     []int        `json:"tidx"`  // type index of every value
@@ -64,6 +68,7 @@ type response struct {
 	Vec   *readResult  `json:"vec,omitempty"`
 	Proj  []readResult `json:"proj,omitempty"`
 	Full  [][][]string `json:"full,omitempty"` // Full[p][i][j]: nav of the full read for projection p
+	Warm  []readResult `json:"warm,omitempty"` // Warm[p]: the full read of the SAME cached object after projection p
 	Meta  []Shape      `json:"meta,omitempty"`
 	Tags  []int        `json:"tags,omitempty"`
 	Size  int          `json:"size,omitempty"`
@@ -216,7 +221,19 @@ func runRequest(req *request, emit func(*response)) {
 	res := &response{ID: req.ID, Done: true}
 	stage := "start"
 	mark := emit
+	base := runtime.NumGoroutine()
+	// settle waits until every goroutine the stage started is gone.  A panic
+	// in a loader goroutine lets errgroup.Wait return (its deferred Done runs
+	// while the panic unwinds) and kills the process a moment later: by
+	// waiting here the death always falls into the stage that caused it.
+	settle := func() {
+		for deadline := time.Now().Add(3 * time.Second); runtime.NumGoroutine() > base && time.Now().Before(deadline); {
+			time.Sleep(50 * time.Microsecond)
+		}
+		time.Sleep(200 * time.Microsecond)
+	}
 	emit = func(r *response) {
+		settle()
 		if r.Stage != "" {
 			stage = r.Stage
 		}
@@ -230,6 +247,7 @@ func runRequest(req *request, emit func(*response)) {
 			// them disturb the next request
 			os.Exit(3)
 		}
+		settle()
 		mark(res)
 	}()
 	u := newUni(req.Universe)
@@ -363,6 +381,48 @@ func runRequest(req *request, emit func(*response)) {
 			full = append(full, navs)
 		}
 		res.Full = append(res.Full, full)
+	}
+	// one warm object: a projection, then the whole values from the same cache
+	for pi, paths := range req.Projs {
+		emit(&response{ID: req.ID, Stage: fmt.Sprintf("warm%d", pi)})
+		var fps []field.Path
+		for _, p := range paths {
+			fps = append(fps, field.Path(p))
+		}
+		wr := readResult{}
+		o, err := vng.NewObject(bytes.NewReader(data))
+		if err != nil {
+			wr.Err = err.Error()
+			res.Warm = append(res.Warm, wr)
+			continue
+		}
+		vo := vcache.NewObjectFromVNG(o)
+		if _, err := pullAll(vam.NewProjection(zed.NewContext(), vo, fps)); err != nil {
+			wr.Err = "projection: " + err.Error()
+		} else if vals, err := pullAll(vam.NewProjection(zed.NewContext(), vo, nil)); err != nil {
+			wr.Err = "full read after the projection: " + err.Error()
+		} else {
+			for _, v := range vals {
+				wr.Vals = append(wr.Vals, canon(v))
+			}
+		}
+		res.Warm = append(res.Warm, wr)
+	}
+}
+
+func pullAll(p zbuf.Puller) ([]zed.Value, error) {
+	var out []zed.Value
+	for {
+		b, err := p.Pull(false)
+		if err != nil {
+			return out, err
+		}
+		if b == nil {
+			return out, nil
+		}
+		for _, v := range b.Values() {
+			out = append(out, v.Copy())
+		}
 	}
 }
 
